@@ -256,7 +256,8 @@ class GroupBy:
                 *group_key_list, sort=False
             )
 
-        self.result_index.names = group_key_names
+        # (a new index object: for a RangeIndex key the labels are the caller's own index)
+        self._result_index = self._result_index.set_names(group_key_names)
 
     @cached_property
     def _group_key_lengths(self):
